@@ -74,7 +74,7 @@ def generate(rng, tier):
         ints = g.chance(2, 3)
         A = gen_matrix(g, n, fam, ints)
         trip = triplets_of(g, A)
-        rhs_kind = g.choice(["plain", "plain", "plain", "scaled", "scaled", "zero"])
+        rhs_kind = g.choice(["plain", "plain", "plain", "scaled", "scaled", "zero", "tiny"])
         guess = g.choice(["zero", "zero", "random", "random", "random", "exact"])
         b, x0, xt = rhs_and_guess(g, n, trip, guess, rhs_kind, ints)
         if fam == "singular" and g.chance(1, 2):
